@@ -46,6 +46,7 @@ class World:
         self.restart = dict(restart or {})  # step name -> bool
         self.events = []                   # events of the current operation
         self.poll_code = "OK"
+        self.poll_calls = 0
         self.poll_reports = []             # [(step name, state name | None)]
         self.job_owner = {}                # job id -> step name
         self.ledger = {}                   # job id -> "live" | terminal state
@@ -127,7 +128,10 @@ class ScriptedAdapter(ScriptAdapter):
         WORLD.queried = list(joblist)
         WORLD.emit(("check", tuple(sorted(WORLD.job_owner[j] for j in joblist)),
                     tuple(sorted(int(j) for j in joblist))))
-        code = getattr(JobStatusCode, WORLD.poll_code)
+        # the scenario's code is the outcome of the first query of the poll; should the graph ask again
+        # within the same poll, the scheduler is up again (a transient failure)
+        code = getattr(JobStatusCode, WORLD.poll_code if WORLD.poll_calls == 0 else "OK")
+        WORLD.poll_calls += 1
         status = {}
         # the scenario's report for a step is about the step's newest job; an older
         # job of the same step that is asked about again is answered from the record
@@ -144,10 +148,8 @@ class ScriptedAdapter(ScriptAdapter):
                 status[j] = getattr(State, WORLD.ledger[j])
         for name, st in WORLD.poll_reports:
             if name not in owner_to_job:
-                if any(WORLD.job_owner[j] == name for j in joblist):
-                    continue      # only a stale job of the step was asked about
-                raise AssertionError(
-                    "scenario reports a step that was not queried: %s" % name)
+                continue      # only a stale job of the step was asked about, or the step is not part of
+                # this call (which jobs a poll asks about altogether is the monitors' business)
             jid = owner_to_job[name]
             if WORLD.ledger.get(jid) in TERMINAL and code == JobStatusCode.OK:
                 # a job that has ended stays ended: asked again about it, the scheduler repeats
@@ -322,6 +324,7 @@ def do_poll(g, code, reports):
     Returns (verdict name | 'RAISE:<cls>', canonical event string)."""
     WORLD.events = []
     WORLD.poll_code = code
+    WORLD.poll_calls = 0
     WORLD.poll_reports = [(sname(i), st) for i, st in reports]
     try:
         v = g.execute_ready_steps()
